@@ -420,6 +420,8 @@ func (d *director) endIncarnation(last bool) {
 			d.rec.mark("settle")
 		}
 	}
+	// everything the client did by itself is in the log now; what follows is the harness's own clean-up
+	d.rec.mark("precleanup")
 	d.next++
 	d.call(step{op: "call", kind: "close", c: d.next})
 	d.mu.Lock()
